@@ -184,3 +184,53 @@ def dedup_guard_rule(ctx, rep, rid: str) -> None:
     raises = [n for n in ast.walk(fi.node) if isinstance(n, ast.If) and any("_handlers" in a and a.endswith("is None") for a in _atoms_of(n.test, gm.aliases))
               and any(isinstance(s, ast.Raise) for s in n.body)]
     rep.check(bool(raises), rid, "unregistered message type raises", "no handler -> raise (message is retried into the DLQ, never consumed silently)", fi.file, raises[0].lineno if raises else fi.node.lineno, disc="no-handler")
+
+
+def post_mark_rule(ctx, rep, rid: str) -> None:
+    """After the handler returned, the processor's own durable mark is reached whenever dedup is on, the message has an id and a
+    store is configured - independent of the handler's kind. (Handler paths that commit without a mark rely on it: re-queue,
+    re-poll, transient retry, several error branches.)"""
+    prog = ctx.prog
+    fi = prog.func("stabilize.queue.processor.mixins", "QueueProcessorMixin._handle_message")
+    handle_line = min((c.lineno for c in ast.walk(fi.node) if isinstance(c, ast.Call) and isinstance(c.func, ast.Attribute) and c.func.attr == "handle" and len(c.args) == 1), default=0)
+
+    def is_post_mark(c: ast.Call) -> bool:
+        return isinstance(c.func, ast.Attribute) and c.func.attr == "mark_message_processed" and c.lineno > handle_line
+
+    # model only the statements after the dispatch
+    tail = [s_ for s_ in fi.node.body if s_.lineno > handle_line]
+    if not tail or not handle_line:
+        rep.fail(rid, "processor post-mark", "statements after handler.handle not found", fi.file, fi.node.lineno, disc="post-mark-shape")
+        return
+    fake = ast.FunctionDef(name="tail", args=fi.node.args, body=tail, decorator_list=[], lineno=tail[0].lineno)
+    # aliases must come from the whole function
+    gm_full = GuardModel(fi.node, is_post_mark)
+    gm = GuardModel(fake, is_post_mark)
+    gm.aliases = gm_full.aliases
+    gm.atoms = []
+    for n in ast.walk(fake):
+        if isinstance(n, ast.If):
+            for a in _atoms_of(n.test, gm.aliases):
+                if a not in gm.atoms:
+                    gm.atoms.append(a)
+    env_req = {}
+    for a in gm.atoms:
+        if "enable_deduplication" in a or ("message_id" in a and a.endswith("is not None")) or ("_store" in a and a.endswith("is not None")):
+            env_req[a] = True
+    free = [a for a in gm.atoms if a not in env_req]
+    bad = []
+    rows = 0
+    try:
+        for bits in itertools.product([False, True], repeat=len(free)):
+            env = dict(env_req)
+            env.update(dict(zip(free, bits)))
+            rows += 1
+            if not gm.reaches(env):
+                bad.append({k: v for k, v in env.items() if k in free})
+    except AnalysisError as e:
+        rep.fail(rid, "processor post-mark", f"guard model: {e}", fi.file, handle_line, disc="post-mark-model")
+        return
+    rep.count(post_mark_rows=rows)
+    rep.check(not bad, rid, "processor marks every handled message", "after handler.handle the durable mark is written whenever dedup is on, the id is known and a store exists"
+              if not bad else f"the processor's mark is skipped under {bad[:2]}: handler paths that commit without their own mark (re-poll, retry, re-queue) are re-executed on redelivery",
+              fi.file, handle_line, disc="post-mark")
